@@ -104,7 +104,7 @@ theorem evalSpec_congr_cone (f : Nat) (g g' : Graph V) (k : Nat)
     | struct s =>
       dsimp only
       congr 1
-      apply List.map_congr_left
+      apply specPull_congr
       intro d hd
       exact ih d (fun j hj => h j (.step hs hd hj))
 
@@ -129,11 +129,12 @@ theorem Spec_static {rank : Nat → Nat} {F : Nat} {g g' : Graph V} (hwf : Ranke
     | struct t =>
       rw [hg] at h1
       obtain ⟨s, hs', hfn, hsc, har, hdeps⟩ := StaticEq.struct_left h1
+      have hrd : s.reads = t.reads := by rw [hs'] at h1; exact StaticEq.reads_eq h1
       rw [hs']
       dsimp only
-      rw [hfn, hsc, har, hdeps]
+      rw [hfn, hsc, har, hdeps, hrd]
       congr 1
-      apply List.map_congr_left
+      apply specPull_congr
       intro d hd
       exact ih (rank d) (hwf.2 i t hg d hd) d rfl
 
@@ -184,8 +185,6 @@ end
 structure Inv (F : Nat) (g : Graph V) : Prop where
   /-- the guard: acyclic, fewer than `F` levels -/
   wf : Acyclic F g
-  /-- the guard on processors: every `Process()` pulls all its wired inputs -/
-  readsAll : ReadsAll g
   /-- I1: a node that is not outdated holds the from-scratch value -/
   fresh : ∀ i s, g i = .struct s → Outdated F g i = false → s.cache = Spec F g i
   /-- I2: remembered dependency versions are as many as the dependencies and pointwise `≤` the
@@ -241,19 +240,14 @@ theorem Inv.local {g : Graph V} (hinv : Inv F g) (p : Nat) (n' : Node V)
     (hup : ∀ k, k ≠ p → Reach (g.set p n') k p → Outdated F (g.set p n') k = true)
     (hfresh : ∀ s, n' = .struct s → Outdated F (g.set p n') p = false → s.cache = Spec F (g.set p n') p)
     (hrem : ∀ s rv, n' = .struct s → s.remembered = some rv → s.flag = false →
-      All2 (fun d r => r ≤ ver (g.set p n') d) s.deps rv)
-    (hreads : ∀ s, n' = .struct s → s.reads = fun _ => true) :
+      All2 (fun d r => r ≤ ver (g.set p n') d) s.deps rv) :
     Inv F (g.set p n') := by
   have hmono : ∀ d, ver g d ≤ ver (g.set p n') d := by
     intro d
     by_cases hd : d = p
     · subst hd; exact hver
     · rw [ver_set_ne g n' hd]; exact Nat.le_refl _
-  refine ⟨hwf', ?_, ?_, ?_⟩
-  · intro k s hs
-    by_cases hk : k = p
-    · subst hk; rw [Graph.set_same] at hs; exact hreads s hs
-    · rw [Graph.set_ne g n' hk] at hs; exact hinv.readsAll k s hs
+  refine ⟨hwf', ?_, ?_⟩
   · intro k s hs hod
     by_cases hk : k = p
     · subst hk
@@ -329,18 +323,24 @@ theorem cnt_eq_zero {l : Log} {k : Nat} (h : ∀ e ∈ l, e.1 ≠ k) : cnt l k =
 structure EvalOK (F : Nat) (g : Graph V) (i : Nat) (r : Graph V × Log) : Prop where
   inv : Inv F r.1
   evo : Evolves F g r.1
-  fresh : Outdated F r.1 i = false
+  /-- the value `Value()` returns is the from-scratch value — for every processor -/
+  value : val r.1 i = Spec F g i
+  /-- for processors that read all their inputs the node ends up `Processed` (for a processor
+      that skipped a stale struct input it does not: the known finding) -/
+  fresh : ReadsAll g → Outdated F r.1 i = false
   /-- I3: only nodes of the cone of `i` change -/
   frame : ∀ k, ¬ Reach g i k → r.1 k = g k
   logOut : ∀ e ∈ r.2, Outdated F g e.1 = true
   logCone : ∀ e ∈ r.2, Reach g i e.1
   count : ∀ k, ver r.1 k = ver g k + cnt r.2 k
 
-structure PullOK (F : Nat) (g : Graph V) (ds : List Nat) (r : Graph V × List V × Log) : Prop where
+structure PullOK (F : Nat) (g : Graph V) (reads : List (Option V) → Bool) (ds : List Nat) (acc : List (Option V))
+    (r : Graph V × List (Option V) × Log) : Prop where
   inv : Inv F r.1
   evo : Evolves F g r.1
-  fresh : ∀ d ∈ ds, Outdated F r.1 d = false
-  vals : r.2.1 = ds.map (Spec F g)
+  fresh : (reads = fun _ => true) → ReadsAll g → ∀ d ∈ ds, Outdated F r.1 d = false
+  /-- the entries `Process()` collected are those of the from-scratch `Process()` -/
+  vals : r.2.1 = specPull (Spec F g) reads ds acc
   frame : ∀ k, (∀ d ∈ ds, ¬ Reach g d k) → r.1 k = g k
   logOut : ∀ e ∈ r.2.2, Outdated F g e.1 = true
   logCone : ∀ e ∈ r.2.2, ∃ d ∈ ds, Reach g d e.1
@@ -351,50 +351,69 @@ variable {rank : Nat → Nat} {F : Nat}
 
 theorem pull_ok (n : Nat)
     (ih : ∀ d, rank d < n → ∀ g : Graph V, Ranked rank F g → Inv F g → EvalOK F g d (Eval F g d))
-    (ds : List Nat) (hds : ∀ d ∈ ds, rank d < n) (g : Graph V) (hwf : Ranked rank F g) (hinv : Inv F g) :
-    PullOK F g ds (pull (Eval F) g ds) := by
-  induction ds generalizing g with
+    (reads : List (Option V) → Bool)
+    (ds : List Nat) (hds : ∀ d ∈ ds, rank d < n) (g : Graph V) (acc : List (Option V)) (hwf : Ranked rank F g)
+    (hinv : Inv F g) :
+    PullOK F g reads ds acc (pullM (Eval F) reads g ds acc) := by
+  induction ds generalizing g acc with
   | nil =>
-    exact ⟨hinv, Evolves.refl g, by simp, rfl, fun _ _ => rfl, by simp [pull], by simp [pull], by simp [pull, cnt]⟩
+    exact ⟨hinv, Evolves.refl g, by simp, rfl, fun _ _ => rfl, by simp [pullM], by simp [pullM], by simp [pullM, cnt]⟩
   | cons d ds ihds =>
     have hd : rank d < n := hds d (List.mem_cons_self ..)
-    have h1 := ih d hd g hwf hinv
-    have hwf1 : Ranked rank F (Eval F g d).1 := hwf.of_static h1.evo.static
-    have h2 := ihds (fun e he => hds e (List.mem_cons_of_mem _ he)) (Eval F g d).1 hwf1 h1.inv
-    simp only [pull]
-    refine ⟨h2.inv, Evolves.trans hwf h1.evo h2.evo, ?_, ?_, ?_, ?_, ?_, ?_⟩
-    · intro e he
-      rcases List.mem_cons.1 he with rfl | he
-      · exact Outdated_stable hwf1 h2.evo.keep h1.fresh
-      · exact h2.fresh e he
-    · dsimp only
-      rw [h2.vals, List.map_cons, val_eq_spec h1.inv h1.fresh, Spec_static hwf h1.evo.static]
-      congr 1
-      apply List.map_congr_left
-      intro e _
-      exact Spec_static hwf h1.evo.static e
-    · intro k hk
-      dsimp only
-      rw [h2.frame k (fun e he hr => hk e (List.mem_cons_of_mem _ he) (hr.of_static h1.evo.static.symm)),
-        h1.frame k (hk d (List.mem_cons_self ..))]
-    · intro e he
-      dsimp only at he
-      rcases List.mem_append.1 he with he | he
-      · exact h1.logOut e he
-      · have := h2.logOut e he
-        cases ho : Outdated F g e.1 with
-        | true => rfl
-        | false => rw [Outdated_stable hwf h1.evo.keep ho] at this; exact absurd this (by simp)
-    · intro e he
-      dsimp only at he
-      rcases List.mem_append.1 he with he | he
-      · exact ⟨d, List.mem_cons_self .., h1.logCone e he⟩
-      · obtain ⟨d', hd', hr⟩ := h2.logCone e he
-        exact ⟨d', List.mem_cons_of_mem _ hd', hr.of_static h1.evo.static.symm⟩
-    · intro k
-      dsimp only
-      rw [h2.count k, h1.count k, cnt_append]
-      omega
+    simp only [pullM]
+    cases hrd : reads acc with
+    | false =>
+      -- the input is not pulled: nothing happens
+      simp only [Bool.false_eq_true, if_false]
+      have h2 := ihds (fun e he => hds e (List.mem_cons_of_mem _ he)) g (acc ++ [none]) hwf hinv
+      refine ⟨h2.inv, h2.evo, ?_, ?_, ?_, h2.logOut, ?_, h2.count⟩
+      · intro hall; rw [hall] at hrd; cases hrd
+      · rw [h2.vals]; simp [specPull, hrd]
+      · intro k hk; exact h2.frame k (fun e he => hk e (List.mem_cons_of_mem _ he))
+      · intro e he
+        obtain ⟨d', hd', hr⟩ := h2.logCone e he
+        exact ⟨d', List.mem_cons_of_mem _ hd', hr⟩
+    | true =>
+      simp only [if_true]
+      have h1 := ih d hd g hwf hinv
+      have hwf1 : Ranked rank F (Eval F g d).1 := hwf.of_static h1.evo.static
+      have h2 := ihds (fun e he => hds e (List.mem_cons_of_mem _ he)) (Eval F g d).1
+        (acc ++ [some (val (Eval F g d).1 d)]) hwf1 h1.inv
+      refine ⟨h2.inv, Evolves.trans hwf h1.evo h2.evo, ?_, ?_, ?_, ?_, ?_, ?_⟩
+      · intro hall hra e he
+        rcases List.mem_cons.1 he with rfl | he
+        · exact Outdated_stable hwf1 h2.evo.keep (h1.fresh hra)
+        · exact h2.fresh hall (hra.of_static h1.evo.static) e he
+      · dsimp only
+        rw [h2.vals, h1.value]
+        have hsp : specPull (Spec F g) reads (d :: ds) acc
+            = specPull (Spec F g) reads ds (acc ++ [some (Spec F g d)]) := by simp [specPull, hrd]
+        rw [hsp]
+        apply specPull_congr
+        intro e _
+        exact Spec_static hwf h1.evo.static e
+      · intro k hk
+        dsimp only
+        rw [h2.frame k (fun e he hr => hk e (List.mem_cons_of_mem _ he) (hr.of_static h1.evo.static.symm)),
+          h1.frame k (hk d (List.mem_cons_self ..))]
+      · intro e he
+        dsimp only at he
+        rcases List.mem_append.1 he with he | he
+        · exact h1.logOut e he
+        · have := h2.logOut e he
+          cases ho : Outdated F g e.1 with
+          | true => rfl
+          | false => rw [Outdated_stable hwf h1.evo.keep ho] at this; exact absurd this (by simp)
+      · intro e he
+        dsimp only at he
+        rcases List.mem_append.1 he with he | he
+        · exact ⟨d, List.mem_cons_self .., h1.logCone e he⟩
+        · obtain ⟨d', hd', hr⟩ := h2.logCone e he
+          exact ⟨d', List.mem_cons_of_mem _ hd', hr.of_static h1.evo.static.symm⟩
+      · intro k
+        dsimp only
+        rw [h2.count k, h1.count k, cnt_append]
+        omega
 
 theorem Eval_ok_aux (n : Nat) : ∀ i, rank i = n → ∀ g : Graph V, Ranked rank F g → Inv F g →
     EvalOK F g i (Eval F g i) := by
@@ -403,8 +422,8 @@ theorem Eval_ok_aux (n : Nat) : ∀ i, rank i = n → ∀ g : Graph V, Ranked ra
     intro i hi g hwf hinv
     subst hi
     have trivialCase : Outdated F g i = false → EvalOK F g i (g, []) := fun ho =>
-      ⟨hinv, Evolves.refl g, ho, fun _ _ => rfl, by simp, by simp, by simp [cnt]⟩
-    rw [Eval_eq_all g hwf hinv.readsAll]
+      ⟨hinv, Evolves.refl g, val_eq_spec hinv ho, fun _ => ho, fun _ _ => rfl, by simp, by simp, by simp [cnt]⟩
+    rw [Eval_eq g hwf]
     cases hs : g i with
     | param x v => exact trivialCase (Outdated_param hwf hs)
     | struct s =>
@@ -413,9 +432,9 @@ theorem Eval_ok_aux (n : Nat) : ∀ i, rank i = n → ∀ g : Graph V, Ranked ra
       | false => simpa using trivialCase ho
       | true =>
         simp only [if_true]
-        have hp := pull_ok (rank i) (fun d hd g' hw' hi' => ih (rank d) hd d rfl g' hw' hi') s.deps
-          (hwf.2 i s hs) g hwf hinv
-        generalize hr : pull (Eval F) g s.deps = r at hp
+        have hp := pull_ok (rank i) (fun d hd g' hw' hi' => ih (rank d) hd d rfl g' hw' hi') s.reads s.deps
+          (hwf.2 i s hs) g [] hwf hinv
+        generalize hr : pullM (Eval F) s.reads g s.deps [] = r at hp
         have hwf1 : Ranked rank F r.1 := hwf.of_static hp.evo.static
         -- the state after the dependencies have been pulled
         have hg1i : r.1 i = .struct s := by
@@ -433,12 +452,18 @@ theorem Eval_ok_aux (n : Nat) : ∀ i, rank i = n → ∀ g : Graph V, Ranked ra
           fun d hd => ver_set_ne _ _ (hdne d hd)
         have hvi : ver (r.1.set i (.struct (s.executed r.1 r.2.1))) i = s.version + 1 := by
           simp [ver, SNode.executed]
-        have hfresh' : Outdated F (r.1.set i (.struct (s.executed r.1 r.2.1))) i = false := by
+        -- the stored value is the from-scratch value, whatever was skipped
+        have hcache : (s.executed r.1 r.2.1).cache = Spec F g i := by
+          rw [Spec_eq g hwf, hs]
+          simp only [SNode.executed]
+          rw [hp.vals]
+        have hfresh' : ReadsAll g → Outdated F (r.1.set i (.struct (s.executed r.1 r.2.1))) i = false := by
+          intro hra
           rw [Outdated_eq _ hwf', Graph.set_same]
           simp only [SNode.executed, Bool.false_or]
           change mismatch _ _ s.deps _ = false
           rw [mismatch_congr _ r.1 _ (Outdated F r.1) s.deps _ ?_]
-          · exact mismatch_map_ver r.1 _ s.deps hp.fresh
+          · exact mismatch_map_ver r.1 _ s.deps (hp.fresh (hra i s hs) hra)
           · intro d hd
             refine ⟨hverd d hd, ?_⟩
             apply Outdated_congr_cone
@@ -453,9 +478,8 @@ theorem Eval_ok_aux (n : Nat) : ∀ i, rank i = n → ∀ g : Graph V, Ranked ra
             exact bump_up hp.inv i _ ⟨rank, hwf'⟩ (by rw [hvi, hver1]; omega) hk hreach
           · intro s' hs' _
             cases hs'
-            rw [Spec_static hwf hstat, Spec_eq g hwf, hs]
-            simp only [SNode.executed]
-            rw [hp.vals]
+            rw [Spec_static hwf hstat]
+            exact hcache
           · intro s' rv hs' hrv _
             cases hs'
             simp only [SNode.executed, Option.some.injEq] at hrv
@@ -465,10 +489,7 @@ theorem Eval_ok_aux (n : Nat) : ∀ i, rank i = n → ∀ g : Graph V, Ranked ra
             intro d hd
             rw [hverd d hd]
             exact Nat.le_refl _
-          · intro s' hs'
-            cases hs'
-            exact hinv.readsAll i s hs
-        refine ⟨hinv', ⟨hstat, ?_, ?_⟩, hfresh', ?_, ?_, ?_, ?_⟩
+        refine ⟨hinv', ⟨hstat, ?_, ?_⟩, ?_, hfresh', ?_, ?_, ?_, ?_⟩
         · intro k hk
           have hki : k ≠ i := by intro h; subst h; rw [ho] at hk; cases hk
           dsimp only
@@ -478,6 +499,9 @@ theorem Eval_ok_aux (n : Nat) : ∀ i, rank i = n → ∀ g : Graph V, Ranked ra
           by_cases hki : k = i
           · subst hki; rw [hvi]; simp [ver, hs]
           · rw [ver_set_ne _ _ hki]; exact hp.evo.mono k
+        · dsimp only
+          simp only [val, Graph.set_same]
+          exact hcache
         · intro k hk
           dsimp only
           have hki : k ≠ i := fun h => hk (h ▸ .refl _)
